@@ -78,7 +78,9 @@ class Check:
         self.cov["harness_build_s"] = round(dt, 1)
         if rc != 0:
             self.broken.append(("build_broken", "harness build against /repo (cfg probminhash_verif)", out[-3000:]))
+            self.harness_ok = False
             return False
+        self.harness_ok = True
         return True
 
     def pre_steps(self):
@@ -225,6 +227,36 @@ class Check:
                 self.failures.append(f)
         return nmis == 0
 
+    def search(self):
+        """a proof obligation or the correspondence broke and no failing input is in hand yet: search the
+        IMPLEMENTATION (thorough-tier oracles of this property, model not consulted) for a concrete one"""
+        exe = os.path.join(HARNESS, "target", "release", "pmh_harness")
+        if not os.path.exists(exe) or not self.cfg.get("corr", True):
+            return
+        wd = self.workdir + "_search"
+        os.makedirs(wd, exist_ok=True)
+        try:
+            rc, out, dt = run([exe, "corr", self.pid, "--seed", str(self.seed), "--tier", "thorough", "--out", wd],
+                              cwd=VERIF, timeout=self.cfg.get("search_timeout", 1500))
+        except Exception as e:  # timeout: nothing found in the budget
+            self.cov["search"] = "timed out: %s" % e
+            return
+        if rc != 0:
+            self.cov["search"] = "search run aborted rc=%d" % rc
+            return
+        summ = json.load(open(os.path.join(wd, "summary.json")))
+        opened, _ = load_known()
+        found = 0
+        for f in summ["oracle_failures"]:
+            if [o for o in opened if o["property"] == self.pid and o["key"] == f.get("key", "")]:
+                continue
+            f = dict(f); f["found_by"] = "search (thorough-tier implementation oracles after a broken obligation)"
+            self.failures.append(f); found += 1
+        self.cov["search"] = "thorough oracles: %d evaluations, %d failing inputs" % (summ["evaluations"], found)
+        for n in ("ops.txt", "impl.txt", "model.txt"):
+            try: os.remove(os.path.join(wd, n))
+            except OSError: pass
+
     def extra_steps(self):
         for name in self.cfg.get("steps", []):
             fn = getattr(__import__("presteps"), name)
@@ -315,6 +347,8 @@ def main():
         c.correspondence()
     if ok:
         c.extra_steps()
+    if c.broken and not c.failures and c.harness_ok:
+        c.search()
     return c.finish()
 
 
